@@ -15,6 +15,7 @@ import (
 // namespace in between (e.g. the last pipeline was deleted while the gate lives).
 func verifC20_TrafficObjects() {
 	tc := &TrafficController{mutex: &sync.Mutex{}, namespaces: map[string]*Namespace{}}
+	verifInitMaps(tc) // maps a bypassed constructor would have made
 	const ns = "default"
 	names := []string{"g", "p"}
 	var live [2]*vPipe // reference: the live generation of each object
